@@ -634,6 +634,11 @@ func runSrv(t *testing.T, sc *SrvScenario, keep bool, res *core.Result, hooks *s
 				if sc.Proc {
 					s.Sleep(10500 * time.Millisecond)
 					s.Sleep(10500 * time.Millisecond)
+				} else if viaChan {
+					// what the reload loop, the periodic reloader and signal senders had in hand when the
+					// operator finished (shutdown included) is carried out before the run is judged
+					s.Sleep(700 * time.Millisecond)
+					s.Sleep(700 * time.Millisecond)
 				}
 			}
 			defer linger()
